@@ -274,6 +274,12 @@ def scenarios(tier):
         add(impl[0] + '2i-2j-overlap', 2,
             [J('a', 0, 'k'), J('b', 1, 'k', by=1)], impl=impl, rp=True,
             bound=1 if quick else None)
+    # the instance that scheduled the job dies: the two others find it in
+    # the store, their polls (select + capture in one transaction) overlap
+    add('d3i-1j-crash0-overlap', 3, [J('a', 0, 'k')], crash=0, rp=True,
+        bound=2 if quick else None)
+    add('d3i-1j-d1-crash0-overlap', 3, [J('a', 1, 'k')], crash=0, rp=True,
+        bound=1 if quick else 3)
     add('d3i-1j-overlap', 3, [J('a', 0, 'k')], rp=True,
         bound=1 if quick else None)
 
